@@ -13,10 +13,12 @@ RULE_TEXT = ("CMP driver: seeded pipelines (any DAG incl. multi-parent and sever
              "case (each has >= 1 pipeline); distinct = distinct (tick rate, pipelines, corruption)")
 claims = base.prefix_claims("C14.")
 WANT_PROBES = list(tracecmp.CORRUPTIONS) + ["mem_zero", "mem_unset", "multi_parent", "same_arrival"]
-RUNNERS = {"w2r": tracecmp.run_w2r, "r2w": tracecmp.run_r2w, "corrupt": tracecmp.run_corrupt}
+RUNNERS = {"w2r": tracecmp.run_w2r, "r2w": tracecmp.run_r2w, "corrupt": tracecmp.run_corrupt, "behav": tracecmp.run_behav}
 
 
 def make(family, rng, tier):
+    if family == "behav":
+        return tracecmp.gen_behav(rng, tier)
     scn = {"kind": family, "tps": rng.choice([1, 2, 4, 8, 16, 64, 1024]), "pipes": tracecmp.gen_pipes14(rng)}
     if family == "corrupt":
         scn["corruption"] = rng.choice(tracecmp.CORRUPTIONS)
@@ -34,10 +36,13 @@ def execute(scn, rng):
 
 def plan(tier):
     q = tier == "quick"
-    return [("w2r", 3000 if q else 60000), ("r2w", 2000 if q else 40000), ("corrupt", 3000 if q else 60000)]
+    return [("w2r", 3000 if q else 60000), ("r2w", 2000 if q else 40000), ("corrupt", 3000 if q else 60000),
+            ("behav", 600 if q else 10000)]
 
 
 def sample(scn, out):
+    if scn["kind"] == "behav":
+        return {"kind": "behav", "cfg": scn["cfg"], "pipelines": len(scn["pipes"])}
     return {"kind": scn["kind"], "tps": scn["tps"], "pipelines": len(scn["pipes"]), "first_pipeline": scn["pipes"][0],
             "corruption": scn.get("corruption")}
 
